@@ -1141,6 +1141,9 @@ class Engine:
         if ty == TSpace:
             return indom(coll.t, x.t)
         if isinstance(ty, TSet):
+            if isinstance(x.ty, TOpt) and x.ty.elem == ty.elem:
+                # `None in {names}` is False; otherwise membership of the wrapped value
+                return z3.And(z3.Not(x.ty.is_none(x.t)), coll.t[x.ty.val(x.t)])
             return coll.t[self.coerce(x, ty.elem, st).t]
         if isinstance(ty, TDict):
             return ty.dom(coll.t)[x.t]
